@@ -10,6 +10,7 @@ import (
 	"sync"
 
 	"github.com/gkampitakis/go-snaps/snaps"
+	tpretty "github.com/tidwall/pretty"
 
 	"verifharness/vkit"
 )
@@ -81,7 +82,7 @@ func allOptSets() []optSet {
 	for _, file := range []string{"", "cf"} {
 		for _, ext := range []string{"", ".txt"} {
 			for ui, upd := range []*bool{nil, &t, &f} {
-				for ji, js := range []*snaps.JSONConfig{nil, {Width: 20, Indent: "\t", SortKeys: false}} {
+				for ji, js := range []*snaps.JSONConfig{nil, {Width: 20, Indent: "\t", SortKeys: false}, {Width: 60, Indent: " ", SortKeys: true}} {
 					for _, sub := range []string{"", "nested/dir", "rate 50%off"} {
 						out = append(out, optSet{Name: fmt.Sprintf("file=%q ext=%q upd=%d json=%d sub=%q", file, ext, ui, ji, sub), File: file, Ext: ext, Upd: upd, JSON: js, Sub: sub})
 					}
@@ -195,6 +196,30 @@ func runSeq(c *vkit.Ctx, o optSet, seq []string, shared bool, in any) (map[strin
 			}
 		}
 		got := tree(root)
+		// absolute oracle for behaviour: JSON text is formatted by this Config's own options
+		// (or the documented defaults when it has none), whatever other Configs did before
+		popts := &tpretty.Options{SortKeys: true, Indent: " "}
+		if o.JSON != nil {
+			popts = &tpretty.Options{Width: o.JSON.Width, Indent: o.JSON.Indent, SortKeys: o.JSON.SortKeys}
+		}
+		for i, api := range seq {
+			if (api != "json" && api != "sjson") || (o.Upd != nil && !*o.Upd) {
+				continue
+			}
+			wantText := strings.TrimSuffix(string(tpretty.PrettyOptions([]byte(fmt.Sprintf(`{"pos":%d,"b":[1,2,3,4,5,6,7,8,9,10,11,12],"a":"x"}`, i)), popts)), "\n")
+			found := false
+			for _, content := range got {
+				if content == wantText || strings.Contains(content, "\n"+wantText+"\n---\n") {
+					found = true
+				}
+			}
+			c.Count("format_checks", 1)
+			if !found {
+				c.Violate("format-not-a-function-of-options", "", fmt.Sprintf("options {%s} sequence %v (shared=%v): call %d (%s) is not stored in the layout of this Config's options; expected text %s", o.Name, seq, shared, i, api, vkit.Q(wantText)), in)
+				ok = false
+				break
+			}
+		}
 		if fmt.Sprint(treeKeys(got)) != fmt.Sprint(keysOfBool(want)) {
 			c.Violate("location-not-a-function-of-options", "", fmt.Sprintf("options {%s} sequence %v (shared=%v): created %v, the options give %v", o.Name, seq, shared, treeKeys(got), keysOfBool(want)), in)
 			ok = false
@@ -214,7 +239,7 @@ func keysOfBool(m map[string]bool) []string {
 }
 
 func checkC12(c *vkit.Ctx) {
-	c.P.Rule = "case = (option set, sequence of 1..4 entry points) - ALL 780 sequences over the five Match* entry points x 72 option sets (Filename x Ext x Update x JSON x nested Dir); each sequence is executed twice in fresh directories: through one shared Config and through a freshly built identical Config per call; oracle: reflection fingerprint of the Config (and of an unrelated Config and of WithConfig()) before/after every call, and equality of created relative paths, file bytes and outcomes between the two executions; non-trivial = sequence of length >= 2 (an earlier call can influence a later one); distinct by (option set, sequence); thorough adds concurrent mixes through one Config under the race detector"
+	c.P.Rule = "case = (option set, sequence of 1..4 entry points) - ALL 780 sequences over the five Match* entry points x 108 option sets (Filename x Ext x Update x JSON x nested Dir); each sequence is executed twice in fresh directories: through one shared Config and through a freshly built identical Config per call; oracle: reflection fingerprint of the Config (and of an unrelated Config and of WithConfig()) before/after every call, and equality of created relative paths, file bytes and outcomes between the two executions; non-trivial = sequence of length >= 2 (an earlier call can influence a later one); distinct by (option set, sequence); thorough adds concurrent mixes through one Config under the race detector"
 	sets := allOptSets()
 	var seqs [][]string
 	var rec func(pre []string, n int)
@@ -268,7 +293,7 @@ func checkC12(c *vkit.Ctx) {
 		c.P.Exhaustive = map[string]bool{}
 	}
 	if os.Getenv("VERIF_RACE_BUILD") != "1" {
-		c.P.Exhaustive["sequences<=4_x_72_option_sets"] = c.OnlyCase < 0
+		c.P.Exhaustive["sequences<=4_x_108_option_sets"] = c.OnlyCase < 0
 	}
 	if c.P.Shard == 0 {
 		c.Count("option_sets", len(sets))
